@@ -82,14 +82,13 @@ template <typename Dom> std::string show_state(ctx &c, const Dom &d) {
   return r;
 }
 
-template <typename Dom> std::string run_history(const std::vector<std::string> &line) {
+template <typename Dom> std::string run_history(const std::vector<std::string> &line, const Dom &topv) {
   // split on ";"
   std::vector<std::vector<std::string>> ops(1);
   for (auto &s : line) { if (s == ";") ops.emplace_back(); else ops.back().push_back(s); }
   if (ops[0].size() < 3 || ops[0][0] != "hist") return "HARNESS-ERROR";
   unsigned nregs = std::stoul(ops[0][1]), nv = std::stoul(ops[0][2]);
   ctx c; c.init(nv);
-  Dom topv;
   std::vector<Dom> regs(nregs, topv.make_top());
   std::string out;
   auto emit = [&](const std::string &s) { if (!out.empty()) out += " ; "; out += s; };
